@@ -60,20 +60,20 @@ func (f *FactView) PureCalls() []*Val { return f.E.pureList }
 
 // Engine walks functions of one package.
 type Engine struct {
-	Pkg      *packages.Package
-	Info     *types.Info
-	Fset     *token.FileSet
-	Decls    map[*types.Func]*ast.FuncDecl
-	Policy   Policy
-	nextID   int
+	Pkg    *packages.Package
+	Info   *types.Info
+	Fset   *token.FileSet
+	Decls  map[*types.Func]*ast.FuncDecl
+	Policy Policy
+	nextID int
 	// spawnDepth > 0 while the body of a function started with `go` is walked: values built meanwhile are marked InGo
 	spawnDepth int
-	consts   map[string]*Val
-	pure     map[string]*Val
-	pureList []*Val
-	globals  map[types.Object]*Val
-	paths    int
-	err      error
+	consts     map[string]*Val
+	pure       map[string]*Val
+	pureList   []*Val
+	globals    map[types.Object]*Val
+	paths      int
+	err        error
 	// Vals lists every abstract value created, by id.
 	Vals map[int]*Val
 	// Params maps the parameters (and receiver) of the entry function of the last Run to their abstract values.
